@@ -300,6 +300,8 @@ Hopen(const char *path, int acc_mode, int16 ndds)
             file_rec->file      = f;
             file_rec->f_cur_off = 0;
             file_rec->last_op   = H4_OP_UNKNOWN;
+            /* the shared file record now really has write access */
+            file_rec->access = acc_mode | DFACC_READ;
         }
 
         /* There is now one more open to this file. */
